@@ -345,14 +345,16 @@ pub fn remap_ids(i: &Inst, f: &dyn Fn(u32) -> u32) -> Inst {
 }
 
 /// id relabelling schemes, injective on ids below 6000: descending; scattered (out of order, around 4096); across
-/// 2^16; across 2^22; just below 2^32
-pub const RELABELLINGS: usize = 5;
+/// 2^16; across 2^22; just below 2^32; numbers with another meaning (magic number, opcode numbers, first words)
+pub const RELABELLINGS: usize = 6;
 pub fn relabel(scheme: usize, id: u32) -> u32 {
     match scheme {
         0 => 6000 - id,
         1 => (id * 37) % 8191 + 1,
         2 => id + 0xFFF0,
         3 => id + 0x003F_FFF0,
-        _ => 0xFFFF_E000 + id,
+        4 => 0xFFFF_E000 + id,
+        // numbers that mean something else elsewhere: the magic number, opcode numbers, plausible first words
+        _ => [0x0723_0203u32, 54, 56, 248, 253, 17, 14, 59, 19, 21, 22, 43, 50, 52, 0x0002_0011, 0x0004_002B][id as usize % 16] + 0x0010_0000 * (id / 16),
     }
 }
